@@ -327,6 +327,26 @@ func genCase(t *rapid.T) Case {
 		return Case{}
 	}
 	rule, seq, idx := flat[ti], flatSeq[ti], flatIdx[ti]
+	// an older control comment that is already on the rule in BOTH files: an expired snooze of the
+	// targeted check, or a comment aimed at another check - neither may change what the new comment does
+	if !fileLevel && rapid.IntRange(0, 2).Draw(t, "preexisting") == 0 {
+		other := rapid.SampledFrom([]string{"promql/rate", "alerts/count", "promql/regexp", "rule/link"}).Draw(t, "preOther")
+		pre := rapid.SampledFrom([]string{
+			"# pint snooze 2000-01-01 " + c.Match,
+			"# pint snooze 2001-02-03T04:05:06Z " + target.Reporter,
+			"# pint disable " + other,
+			"# pint snooze 2099-01-01 " + other,
+		}).Draw(t, "preComment")
+		if rapid.Bool().Draw(t, "preAbove") || len(rule.Pairs) < 2 {
+			for len(seq.ItemBefore) <= idx {
+				seq.ItemBefore = append(seq.ItemBefore, nil)
+			}
+			seq.ItemBefore[idx] = append(append([]string{}, seq.ItemBefore[idx]...), pre)
+		} else {
+			pi := rapid.IntRange(1, len(rule.Pairs)-1).Draw(t, "preAt")
+			rule.Pairs[pi].Before = append(append([]string{}, rule.Pairs[pi].Before...), pre)
+		}
+	}
 	placements := []string{"above", "between", "trailing"}
 	if fileLevel {
 		placements = []string{"top", "above", "between"}
